@@ -338,6 +338,20 @@ def _marker_part(ctx):
     e3.specifier
     for e in (e1, e2, e3, M.AnyMarker(), M.AnyMarker(), M.EmptyMarker(), M.EmptyMarker()):
         _add(ctx, zoo, e, 10 ** 6)
+    # compounds as the plain (non-normalising) public constructors build them - the library builds such objects
+    # itself on the way to a result: no children, one child, a universal / empty child
+    x_, y_ = P('os_name == "a"'), P('python_version >= "3.8"')
+    for raw in (lambda: M.MultiMarker(), lambda: M.MarkerUnion(), lambda: M.MultiMarker(M.AnyMarker()),
+                lambda: M.MarkerUnion(M.EmptyMarker()), lambda: M.MultiMarker(x_), lambda: M.MarkerUnion(x_),
+                lambda: M.MarkerUnion(x_, M.AnyMarker()), lambda: M.MultiMarker(x_, M.EmptyMarker()),
+                lambda: M.MultiMarker(x_, M.AnyMarker()), lambda: M.MarkerUnion(x_, M.EmptyMarker()),
+                lambda: M.MultiMarker(x_, y_), lambda: M.MultiMarker(y_, x_), lambda: M.MarkerUnion(x_, y_),
+                lambda: M.MarkerUnion(y_, x_), lambda: M.MultiMarker(x_, x_), lambda: M.MarkerUnion(M.MarkerUnion(x_, y_))):
+        try:
+            _add(ctx, zoo, raw(), 10 ** 6)
+        except Exception:  # noqa: BLE001  (a constructor that refuses a shape is fine)
+            pass
+    ctx.shape("zoo:raw-constructed compounds")
     ctx.shape("pair:reversed-vs-forward", 5)
     ctx.shape("pair:group-order", 2)
     cfg = MW.Cfg()
